@@ -578,42 +578,42 @@ Proof.
   rewrite sign_data_app. simpl. rewrite (post_ev_no_sign _ Hpost), app_nil_r. exact Hd.
 Qed.
 
-Lemma session_draws dir chal keypair : forall rs s s' os,
-  session dir chal keypair rs s = (s', os) ->
+Lemma session_draws chal keypair : forall rs s s' os,
+  session chal keypair rs s = (s', os) ->
   (s_cdraws s <= s_cdraws s')%nat /\
   draws_in chal (s_cdraws s) (s_cdraws s') (flat_map (fun o => sign_data (o_log o)) os).
 Proof.
   induction rs as [|ri rest IH]; intros s s' os H; simpl in H.
   - injection H as <- <-. split; [lia | apply draws_in_nil].
   - unfold run_once in H.
-    destruct (run_body (run_env dir chal keypair ri) (ri_params ri) (ri_handlers ri) (start_run s))
+    destruct (run_body (run_env chal keypair ri) (ri_params ri) (ri_handlers ri) (start_run s))
       as [[s1 ev] r] eqn:Hr.
-    destruct (session dir chal keypair rest s1) as [s2 os2] eqn:Hs.
+    destruct (session chal keypair rest s1) as [s2 os2] eqn:Hs.
     injection H as <- <-. apply run_body_draws in Hr as [Hle1 Hd1]. apply IH in Hs as [Hle2 Hd2].
     cbn [start_run s_cdraws run_env e_chal] in *. split; [lia|].
     simpl. eapply draws_in_app; [|exact Hd1|exact Hd2]. lia.
 Qed.
 
 (** ** The C01 oracle holds on every session of the model. *)
-Lemma session_runs_oracle dir chal keypair : forall rs s,
-  forallb2 (fun ri o => oracle_c01_run dir (ri_params ri) (ri_handlers ri) o) rs
-           (snd (session dir chal keypair rs s)) = true.
+Lemma session_runs_oracle chal keypair : forall rs s,
+  forallb2 (fun ri o => oracle_c01_run (ri_dir ri) (ri_params ri) (ri_handlers ri) o) rs
+           (snd (session chal keypair rs s)) = true.
 Proof.
   induction rs as [|ri rest IH]; intro s; simpl; [reflexivity|].
   unfold run_once.
-  pose proof (oracle_c01_run_model (run_env dir chal keypair ri) (ri_params ri) (ri_handlers ri) (start_run s)) as Ho.
+  pose proof (oracle_c01_run_model (run_env chal keypair ri) (ri_params ri) (ri_handlers ri) (start_run s)) as Ho.
   destruct (run_body _ _ _ _) as [[s1 ev] r].
-  specialize (IH s1). destruct (session dir chal keypair rest s1) as [s2 os2].
+  specialize (IH s1). destruct (session chal keypair rest s1) as [s2 os2].
   simpl in *. rewrite Ho, IH. reflexivity.
 Qed.
 
-Theorem oracle_c01_session_model dir chal keypair rs s :
+Theorem oracle_c01_session_model chal keypair rs s :
   Injective chal ->
-  oracle_c01_session dir rs (snd (session dir chal keypair rs s)) = true.
+  oracle_c01_session rs (snd (session chal keypair rs s)) = true.
 Proof.
   intro Hinj. unfold oracle_c01_session. rewrite session_runs_oracle. simpl.
   apply nodup_n_NoDup.
-  destruct (session dir chal keypair rs s) as [s' os] eqn:Hs.
+  destruct (session chal keypair rs s) as [s' os] eqn:Hs.
   apply session_draws in Hs as [_ Hd]. simpl. eapply draws_in_NoDup; eauto.
 Qed.
 
@@ -922,39 +922,73 @@ Proof.
   injection H as <- _ _. rewrite Hc, Hg. exact Hp1.
 Qed.
 
-Lemma session_sigs_past dir chal keypair : Injective chal -> forall rs s s' os,
+Lemma session_sigs_past chal keypair : Injective chal -> forall rs s s' os,
   Forall (fun ri => beh_blind chal (ri_beh ri)) rs ->
-  session dir chal keypair rs s = (s', os) ->
+  session chal keypair rs s = (s', os) ->
   sigs_past chal (s_cdraws s) (s_sigs s) -> sigs_past chal (s_cdraws s') (s_sigs s').
 Proof.
   intros Hinj. induction rs as [|ri rest IH]; intros s s' os Hb H Hp; simpl in H.
   - injection H as <- _. exact Hp.
   - inversion Hb as [|? ? Hb1 Hb2]; subst. unfold run_once in H.
-    destruct (run_body (run_env dir chal keypair ri) (ri_params ri) (ri_handlers ri) (start_run s))
+    destruct (run_body (run_env chal keypair ri) (ri_params ri) (ri_handlers ri) (start_run s))
       as [[s1 ev] r] eqn:Hr.
-    destruct (session dir chal keypair rest s1) as [s2 os2] eqn:Hs.
+    destruct (session chal keypair rest s1) as [s2 os2] eqn:Hs.
     injection H as <- _. eapply IH; eauto.
-    eapply (run_body_sigs_past (run_env dir chal keypair ri)); eauto.
+    eapply (run_body_sigs_past (run_env chal keypair ri)); eauto.
 Qed.
 
 (** After any history, a run in which the agent replays an earlier signature
     ends with "all authentications failed" and changes nothing. *)
-Theorem replay_rejected_in_histories dir chal keypair rs s0 s1 os ri i c p a pk :
+Theorem replay_rejected_in_histories chal keypair rs s0 s1 os ri i c p a pk :
   Injective chal ->
   sigs_past chal (s_cdraws s0) (s_sigs s0) ->
   Forall (fun ri => beh_blind chal (ri_beh ri)) rs ->
-  session dir chal keypair rs s0 = (s1, os) ->
+  session chal keypair rs s0 = (s1, os) ->
   ri_beh ri = Replay i -> ri_handlers ri = [Regular c] -> ri_params ri = Some p ->
-  p_attrs p = Some a -> registered_key dir (p_logname p) = Some pk ->
-  let '(s2, o) := run_once dir chal keypair ri s1 in
+  p_attrs p = Some a -> registered_key (ri_dir ri) (p_logname p) = Some pk ->
+  let '(s2, o) := run_once chal keypair ri s1 in
   o_res o = Some KAllAuthFailed /\ forallb auth_only (o_log o) = true /\ o_store o = s_store s1.
 Proof.
   intros Hinj Hp Hb Hs Hbeh Hhs Hpo Ha Hreg.
-  pose proof (session_sigs_past dir chal keypair Hinj _ _ _ _ Hb Hs Hp) as Hp1.
+  pose proof (session_sigs_past chal keypair Hinj _ _ _ _ Hb Hs Hp) as Hp1.
   unfold run_once. rewrite Hhs, Hpo.
-  destruct (run_body (run_env dir chal keypair ri) (Some p) [Regular c] (start_run s1)) as [[s2 ev] r] eqn:Hr.
+  destruct (run_body (run_env chal keypair ri) (Some p) [Regular c] (start_run s1)) as [[s2 ev] r] eqn:Hr.
   eapply adversary_table in Hr; eauto.
   - destruct Hr as [-> [Hao Hst]]. simpl. auto.
   - cbn [run_env e_beh e_chal start_run s_sigs s_cdraws]. rewrite Hbeh. simpl.
     apply replay_defeated; auto.
+Qed.
+
+(** ** The directory of the run decides.  After any history - whatever earlier
+    runs saw registered, including the very key the agent still holds - a run
+    whose own directory registers another key for the login name, or none,
+    refuses a requester that signs with the old key. *)
+Theorem stale_key_refused_in_histories chal keypair rs s0 s1 os ri held c p a pk :
+  session chal keypair rs s0 = (s1, os) ->
+  ri_beh ri = Honest held \/ ri_beh ri = SignsWith held -> held <> pk ->
+  ri_handlers ri = [Regular c] -> ri_params ri = Some p -> p_attrs p = Some a ->
+  registered_key (ri_dir ri) (p_logname p) = Some pk ->
+  let '(s2, o) := run_once chal keypair ri s1 in
+  o_res o = Some KAllAuthFailed /\ forallb auth_only (o_log o) = true /\ o_store o = s_store s1.
+Proof.
+  intros _ Hbeh Hne Hhs Hpo Ha Hreg.
+  unfold run_once. rewrite Hhs, Hpo.
+  destruct (run_body (run_env chal keypair ri) (Some p) [Regular c] (start_run s1)) as [[s2 ev] r] eqn:Hr.
+  eapply adversary_table in Hr; eauto.
+  - destruct Hr as [-> [Hao Hst]]. simpl. auto.
+  - cbn [run_env e_beh]. destruct Hbeh as [-> | ->]; simpl; exact Hne.
+Qed.
+
+Theorem unregistered_refused_in_histories chal keypair rs s0 s1 os ri c p a :
+  session chal keypair rs s0 = (s1, os) ->
+  ri_handlers ri = [Regular c] -> ri_params ri = Some p -> p_attrs p = Some a ->
+  registered_key (ri_dir ri) (p_logname p) = None ->
+  let '(s2, o) := run_once chal keypair ri s1 in
+  o_res o = Some KAllAuthFailed /\ o_log o = [EvAuth 0] /\ o_store o = s_store s1.
+Proof.
+  intros _ Hhs Hpo Ha Hreg. rewrite registered_key_lookup in Hreg.
+  unfold run_once. rewrite Hhs, Hpo.
+  unfold run_body. cbn [auth_loop authenticate name_panics_of].
+  unfold reg_authenticate. cbn [run_env e_dir]. rewrite Ha, Hreg.
+  destruct (negb (str_eqb (p_ns p) no_namespace)); destruct (a_hardkey a); simpl; auto.
 Qed.
